@@ -7,6 +7,7 @@ Everything is regenerated from the *current* files of <repo-path> on every call.
 import sys, os, json, hashlib, re, glob, shutil
 
 repo = os.path.abspath(sys.argv[1])
+check = sys.argv[2].lower() if len(sys.argv) > 2 else ""
 verif = os.path.dirname(os.path.dirname(os.path.abspath(__file__)))
 key = hashlib.sha1(repo.encode()).hexdigest()[:10]
 bdir = os.path.join(verif, ".build", key)
@@ -14,10 +15,20 @@ os.makedirs(bdir, exist_ok=True)
 
 replace = {}
 # 1. in-package harness files: harness/<pkg path>/zz_verif_*.go -> <repo>/<pkg path>/zz_verif_*.go
+#    A file named zz_verif_cNN_* belongs to check cNN: it is injected when building that check or when
+#    the check is registered in MANIFEST.json (so an unfinished check cannot break the others).
+registered = set()
+try:
+    registered = set(c["property_id"].lower() for c in json.load(open(os.path.join(verif, "MANIFEST.json")))["checks"])
+except Exception:
+    pass
 hroot = os.path.join(verif, "harness")
 for dirpath, _, files in os.walk(hroot):
     for f in files:
         if f.startswith("zz_verif_") and f.endswith(".go"):
+            mm = re.match(r"zz_verif_(c\d+)_", f)
+            if mm and mm.group(1) != check and mm.group(1) not in registered:
+                continue
             rel = os.path.relpath(os.path.join(dirpath, f), hroot)
             replace[os.path.join(repo, rel)] = os.path.join(dirpath, f)
 
@@ -49,7 +60,7 @@ if old != src2:
     open(gen, "w").write(src2)
 replace[src_path] = gen
 
-ov = os.path.join(bdir, "overlay.json")
+ov = os.path.join(bdir, "overlay-%s.json" % check if check else "overlay.json")
 txt = json.dumps({"Replace": replace}, indent=1, sort_keys=True)
 if not os.path.exists(ov) or open(ov).read() != txt:
     open(ov, "w").write(txt)
